@@ -175,8 +175,8 @@ Print Assumptions C13_successors_complete.
    carry into the flags while fewer than 2^62-1 writers are in flight, and the encoding is injective. *)
 Theorem C13_word_encoding : forall w, WAP.word_ok w ->
   (Z.land (WA.encode w) udpMuxWriteCountMask = Z.of_nat (WA.cnt w) /\
-   (Z.land (WA.encode w) WA.udpMuxWriteBlockedBit <> 0%Z <-> WA.blk w = true) /\
-   (Z.land (WA.encode w) WA.udpMuxWriteDeadlineBit <> 0%Z <-> WA.dl w = true)) /\
+   (Z.land (WA.encode w) udpMuxWriteBlockedBit <> 0%Z <-> WA.blk w = true) /\
+   (Z.land (WA.encode w) udpMuxWriteDeadlineBit <> 0%Z <-> WA.dl w = true)) /\
   (WA.encode (WA.winc w) = (WA.encode w + 1)%Z /\
    (WA.cnt w <> O -> WA.encode (WA.wdec w) = (WA.encode w - 1)%Z) /\
    WA.encode WA.w0 = 0%Z /\ (0 <= WA.encode w < 2 ^ 64)%Z /\
